@@ -81,7 +81,7 @@ def r_printer(P, rep):
                 if g in u.functions:
                     todo.append(g)
     helpers = sorted(set(g for g in reach if g not in u.functions or any(m.kind == 'MemberExpr' and m.name == 'loc' for m in u.fn(g).walk())) | {'open_file'})
-    it = PInterp(P, u, {'opaque': helpers, 'cut': {k: None for k in outs}, 'loop_limit': 2, 'track_stores': True})
+    it = PInterp(P, u, {'opaque': helpers, 'cut': {k: None for k in outs}, 'loop_limit': 3, 'track_stores': True})
     # predicates over a PAIR of tokens (two or more Token * parameters, and they read spellings): what the printer asks before it glues
     pairh = sorted(h for h in helpers if h in u.functions and sum(1 for q in u.params(h) if (q.type or '').replace(' ', '') == 'Token*') >= 2)
     rep.rule('R19.5', 'print_tokens consults its pair predicate about the right pair: whenever it asks a two-token predicate (may_fuse) about the token it is about to write, the other token of the question is the token whose spelling was written immediately before - at every position (first, second, later token of the output or of a line, after a spaced token) - and a token that carries neither at_bol nor has_space is written directly after its predecessor only on a path on which that question was asked', floor=2)
@@ -652,7 +652,7 @@ def r_invocation_white_space(P, rep):
             call(name)
         except AnalysisBroken as e:
             rep.undecided('R19.6', '%s:white-space-kept:%s' % (PU, name.strip('_').replace('_', '-')), 'analysis could not proceed: %s' % e, where=where)
-    why = 'the -E output is written from these flags: the white space of the printed text differs from the white space the program wrote (`a NOTHING()+ b` is printed `a+ b`, and # spells it so): '
+    why = 'the -E output is written from these flags, so the printed text (and what a later # spells) has other white space than the program wrote: '
     n = reissue(rep, 'R19.6', sub, why, keep=lambda o: o['key'].split(':', 1)[0] in ('R09.15', 'R09.18'))
     if n == 0:
         rep.undecided('R19.6', '%s:expand_macro:no-obligation' % PU, 'the rules on the flags around an invocation produced no obligation', where=where)
